@@ -19,6 +19,7 @@ type CEnv struct {
 	qn        *int
 	entryVars map[string]SV // values of the parameters at function entry (for old())
 	prev      *CEnv         // the environment at the head of the current loop iteration (step clauses)
+	outer     *CEnv         // the environment at the head of the current iteration of the enclosing loop (inner-loop invariants)
 	st        *State        // when set: type invariants of values read from the heap are added to it as assumptions
 }
 
@@ -265,6 +266,10 @@ func (env *CEnv) eval(e *CExpr) SV {
 		c := env.evalBool(e.X)
 		a := env.eval(e.Y)
 		b := env.eval(e.Z)
+		if (a.K == KRef && b.K == KInt) || (a.K == KInt && b.K == KRef) {
+			// references are integers
+			return intSV(Ite(c, a.T, b.T), types.Typ[types.Int])
+		}
 		if a.K != b.K && !(a.K == KFunc || b.K == KFunc) {
 			env.errf("branches of ?: differ in kind in %s", e)
 		}
@@ -552,15 +557,19 @@ func (env *CEnv) call(e *CExpr) SV {
 		n := a
 		n.Arr = Store(a.Arr, Add(a.Off, i), vt)
 		return n
-	case "prev":
-		if env.prev == nil {
-			env.errf("prev() is only available in a loop step clause: %s", e)
+	case "prev", "outer":
+		src := env.prev
+		if e.Str == "outer" {
+			src = env.outer
 		}
-		n := *env.prev
+		if src == nil {
+			env.errf("%s() is not available here (prev: loop step clauses; outer: invariants of a loop nested in a loop that has step clauses): %s", e.Str, e)
+		}
+		n := *src
 		n.qn = env.qn
 		// bound variables of enclosing quantifiers stay visible
 		n.vars = map[string]SV{}
-		for k, v := range env.prev.vars {
+		for k, v := range src.vars {
 			n.vars[k] = v
 		}
 		for k, v := range env.vars {
@@ -569,6 +578,29 @@ func (env *CEnv) call(e *CExpr) SV {
 			}
 		}
 		return n.eval(e.Args[0])
+	case "seqvalof":
+		// the contents of a byte sequence or string as one abstract value (equal contents, equal values)
+		sv := env.eval(e.Args[0])
+		if sv.K != KSeq {
+			env.errf("seqvalof: not a sequence: %s", e.Args[0])
+		}
+		return intSV(env.x.seqVal(env.cur, sv), types.Typ[types.Int])
+	case "casefold":
+		// Unicode case folding of an abstract sequence value (assumed dependency golang.org/x/text/cases)
+		return intSV(App("ext.casefold", SInt, env.evalInt(e.Args[0])), types.Typ[types.Int])
+	case "haskey", "mapget":
+		// haskey(m, k): k is a key of the map; mapget(m, k): the value stored (zero value when absent)
+		mv := env.eval(e.Args[0])
+		if mv.K != KRef || mv.T == nil || mapTypeOf(mv.Ty) == nil {
+			env.errf("%s: not a map: %s", e.Str, e.Args[0])
+		}
+		kv := env.eval(e.Args[1])
+		key := env.x.mapKeyTerm(env.cur, kv, mapTypeOf(mv.Ty).Key())
+		val, has := env.x.mapRead(env.cur, mv.Ty, mv.T, key)
+		if e.Str == "haskey" {
+			return boolSV(has)
+		}
+		return env.inv(val)
 	case "isstring":
 		a := env.eval(e.Args[0])
 		return boolSV(BoolC(a.K == KSeq && a.Ty != nil && isStringType(a.Ty)))
